@@ -20,7 +20,10 @@ META = {
                   "bal_tol, results sorted by delta_v, each (i,j) at most once; refined point == midpoint of the closest "
                   "points when the refinement is valid.",
     "level_note": "Cloud sizes are bounded (2-3 points per cloud) while all coordinates, states, radii and tolerances are "
-                  "symbolic reals; the kernels are pointwise / pairwise loops. Trusted: T12 (for a convex differentiable "
+                  "symbolic reals; the kernels are pointwise / pairwise loops; the mutual-nearest bookkeeping is additionally decided "
+                  "by bounded-exhaustive enumeration (every placement of 2x2, 3x2, 2x3 clouds on an integer line, three radii) "
+                  "in the quick tier and for fully symbolic collinear 2x2 clouds in the thorough tier. Floating-point effects "
+                  "(a rounding residue in den for parallel segments) are outside A1. Trusted: T12 (for a convex differentiable "
                   "function on a box the KKT sign conditions characterise global minimisers), list.sort.",
     "technique": "forking symbolic execution of the real code, per-path NRA VCs (z3, cvc5 on unknown), KKT form of minimality",
 }
